@@ -283,9 +283,10 @@ class FlagByExactValueProvider(BaseFlagProvider):
             if data < 0 or data > flag_mask:
                 raise OutOfRangeLoadError(0, flag_mask, data)
 
-            # data already has been validated for all edge cases
-            # so enum lookup cannot raise an error
-            return enum(data)
+            try:
+                return enum(data)
+            except ValueError:  # not every combination of bits is a valid value of a flag with the STRICT boundary
+                raise MsgLoadError("Bad flag value", data)
 
         return flag_loader
 
